@@ -25,19 +25,22 @@ LEVEL_NOTE = ("Trusted: TorSim (reference model written from control-spec 4.1.1/
               "self-tested for model invariants and event grammar), FakeTor, the reply encoder. Events are delivered "
               "only after TorState has subscribed; nothing happens in the window between snapshot and SETEVENTS.")
 RULE = ("a case = one population (0..50 unobserved model steps, served as snapshot in the empty / inline / data-block "
-        "shapes) + one history of 8..60 legal model steps + bootstrap style (TorState(proto) | from_protocol) + "
+        "shapes) + in 30% of the cases some steps in the subscription window + one history of 8..60 legal model steps + bootstrap style (TorState(proto) | from_protocol) + "
         "segmentation of the server byte stream. Distinct = hash of (population, history, style, segmentation). "
         "Non-trivial = at least one event was delivered and compared while >= 1 circuit or stream was live.")
 ASSUMPTIONS = [
     "Tor emits events as modelled by TorSim (see module docstring of vf/faketor/torsim.py)",
-    "no event is generated between GETINFO stream-status and the SETEVENTS that subscribes STREAM/CIRC",
+    "between GETINFO stream-status and the SETEVENTS that subscribes STREAM only new streams appear (and take "
+    "further steps); the state is compared with what Tor has REPORTED: such a stream is expected from the first line "
+    "Tor sends about it after the subscription (any status), not before",
+    "a connect stream that fails may be reported as FAILED followed by CLOSED (Tor does that): it must be gone after "
+    "FAILED and still be gone after the trailing CLOSED",
     "stream targets never coincide with address-map entries (TorState would translate them to names)",
     "a stream's compared target is host:port of the first line Tor reported for it; target_addr is compared only "
     "after a REMAP was reported; source address/port only if a SOURCE_ADDR was reported (snapshot lines carry none)",
     "BUILD_FLAGS of one circuit is either always present or always absent",
     "IPv6 literals may be kept with or without brackets",
     "a stream whose circuit died and that Tor has not yet reported may still reference the dead circuit object",
-    "FAILED immediately followed by CLOSED for the same stream is not generated",
 ]
 TRUSTED_BASE = ["vf.faketor.torsim.TorSim (model, generator and ground truth)", "vf.faketor.core.FakeTor / Link",
                 "vf.refs.reply encoder"]
@@ -60,6 +63,7 @@ FLOORS = {
               "snapshot_entries": 800, "circuit_id_reused": 400, "stream_id_reused": 550,
               "circuit_died_under_streams": 200, "detached_after_circuit_died": 70,
               "reattached_to_other_circuit": 70, "hop_not_in_consensus": 700, "cannibalized": 35,
+              "closed_after_failed_delivered": 150, "stream_first_seen_in_mid_life": 150,
               "reach:txtorcon.stream:Stream.update": 4200, "reach:txtorcon.circuit:Circuit.update": 4200,
               "reach:txtorcon.torstate:TorState.circuit_destroy": 700,
               "reach:txtorcon.torstate:TorState._stream_status": 350},
@@ -69,7 +73,7 @@ FLOORS = {
                  "reattached_to_other_circuit": 2500},
 }
 
-SIM_STATS = ["circuit_id_reused", "stream_id_reused", "circuit_died_under_streams",
+SIM_STATS = ["failed_closed_pairs", "stream_first_seen_in_mid_life", "circuit_id_reused", "stream_id_reused", "circuit_died_under_streams",
              "detached_after_circuit_died", "ended_after_circuit_died", "reattached_after_detach",
              "reattached_to_other_circuit", "hop_not_in_consensus", "cannibalized",
              "purpose_changed_while_building"]
@@ -82,10 +86,11 @@ def gen_case(rnd, tier="quick"):
     pre_steps = rnd.choice([0, 0, 1, 2, 3, 4, 6, 9, 14, 20, 30, 50])
     n = rnd.choice([8, 12, 20, 30, 40]) if tier == "quick" else rnd.choice([10, 20, 30, 40, 60])
     limits = rnd.choice([[6, 8], [6, 8], [6, 8], [3, 8], [6, 3], [2, 2], [1, 4]])
-    pre, hist = torsim.script(rnd, pre_steps, n, max_circuits=limits[0], max_streams=limits[1])
+    pre, win, hist = torsim.script_w(rnd, pre_steps, n, window=rnd.random() < 0.3,
+                                     max_circuits=limits[0], max_streams=limits[1])
     r = rnd.random()
     chunking = [1 << 30] if r < 0.8 else ([1] if r < 0.85 else [rnd.randint(2, 40)])
-    return {"pre": pre, "hist": hist, "boot": "ctor" if rnd.random() < 0.6 else "from_protocol",
+    return {"pre": pre, "window": win, "hist": hist, "boot": "ctor" if rnd.random() < 0.6 else "from_protocol",
             "chunking": chunking, "limits": limits}
 
 
@@ -125,7 +130,8 @@ def compare(state, sim, rec=None):
     def V(clause, cls, detail, who):
         out.append((clause, cls, detail, who))
 
-    got_c, want_c = set(state.circuits), set(sim.circuits)
+    known_c, known_s = sim.known_circuits(), sim.known_streams()
+    got_c, want_c = set(state.circuits), set(known_c)
     if got_c != want_c:
         dead = {c.id: c for c in getattr(sim, "dead_circuits", {}).values()}
         for cid in sorted(got_c - want_c):
@@ -135,7 +141,7 @@ def compare(state, sim, rec=None):
         for cid in sorted(want_c - got_c):
             V("circuit-set", "missing,first-seen=%s" % sim.circuits[cid].first_seen,
               {"missing": cid, "state_has": sorted(got_c), "tor_has": sorted(want_c)}, ("c", sim.circuits[cid].uid))
-    got_s, want_s = set(state.streams), set(sim.streams)
+    got_s, want_s = set(state.streams), set(known_s)
     if got_s != want_s:
         dead = {s.id: s for s in getattr(sim, "dead_streams", {}).values()}
         for sid in sorted(got_s - want_s):
@@ -219,7 +225,7 @@ def compare(state, sim, rec=None):
     # the other direction: every live circuit lists exactly its streams, once
     for cid, c in live_circ_objs.items():
         m = sim.circuits[cid]
-        want = [stream_objs[sid] for sid in sim.streams_on(cid) if sid in stream_objs]
+        want = [stream_objs[sid] for sid in sim.streams_on(cid, reported_only=True) if sid in stream_objs]
         got = list(c.streams)
         bad = None
         for x in got:
@@ -240,7 +246,7 @@ def compare(state, sim, rec=None):
         if bad:
             V("circuit-streams", "%s,circuit-last=%s" % (bad[0], m.status),
               {"circuit": cid, "got": [getattr(x, "id", None) for x in got],
-               "want": sim.streams_on(cid), "problem": bad}, ("c", m.uid))
+               "want": sim.streams_on(cid, reported_only=True), "problem": bad}, ("c", m.uid))
     if rec is not None:
         rec.count("oracle_evaluations")
         rec.count("circuits_compared", n_c)
@@ -282,7 +288,7 @@ def run_case(case, rec, mutate_hook=None):
         sim.apply(a)
     snap = sim.take_snapshot()
     rep = Reporter(rec, case)
-    ses = torsim.SimSession(sim, boot=case["boot"], chunking=case["chunking"])
+    ses = torsim.SimSession(sim, boot=case["boot"], chunking=case["chunking"], window=case.get("window", ()))
     try:
         shape = "circuits=%s,streams=%s" % tuple(
             "0" if n == 0 else "1" if n == 1 else "many"
@@ -317,6 +323,10 @@ def run_case(case, rec, mutate_hook=None):
                 delivered += 1
                 rec.count("events_delivered")
                 rec.count("circ_events" if ev.kind == "CIRC" else "stream_events")
+                if ev.ghost:
+                    rec.count("closed_after_failed_delivered")
+                if ev.first_sight and ev.status not in ("LAUNCHED", "NEW", "NEWRESOLVE"):
+                    rec.seen("first_seen_by_event_in_state", ev.status)
                 k = (ev.kind, ev.uid)
                 rec.seen("transitions", "%s %s>%s" % (ev.kind, last.get(k, "(new)"), ev.status))
                 last[k] = ev.status
